@@ -1,4 +1,167 @@
 package main
 
-// runMutants is filled in later (thorough-tier sensitivity controls, DESIGN.md §2.5).
-func runMutants(pd *propDef, rules []string) any { return map[string]any{"status": "catalogue not built yet"} }
+import (
+	"encoding/json"
+	"fmt"
+	"os"
+	"os/exec"
+	"path/filepath"
+	"sort"
+	"strings"
+	"sync"
+)
+
+// Mutant controls (thorough tier, DESIGN.md §2.5): every catalogue entry that expects one of this property's rules to
+// fire is applied to a scratch copy of /repo's working tree (outside /repo and /verif), analysed by a separate ivcheck
+// process, and the copy is removed straight afterwards. Results are sensitivity evidence; they never change the exit code.
+
+type mutantExpect struct {
+	Property string `json:"property"`
+	Rule     string `json:"rule"`
+}
+
+type mutantEntry struct {
+	ID     string         `json:"id"`
+	Patch  string         `json:"patch"`
+	Expect []mutantExpect `json:"expect"`
+	Source string         `json:"source"`
+	What   string         `json:"what"`
+}
+
+type mutantResult struct {
+	ID      string   `json:"id"`
+	Source  string   `json:"source"`
+	What    string   `json:"what"`
+	Expect  []string `json:"expected_rules"`
+	Status  string   `json:"status"` // fired | missed | skipped
+	Fired   []string `json:"fired_keys,omitempty"`
+	Comment string   `json:"comment,omitempty"`
+}
+
+func runMutants(pd *propDef, rules []string, repo string) any {
+	b, err := os.ReadFile(verifDir + "/mutants/catalog.json")
+	if err != nil {
+		return map[string]any{"status": "no catalogue: " + err.Error()}
+	}
+	var cat []mutantEntry
+	if err := json.Unmarshal(b, &cat); err != nil {
+		return map[string]any{"status": "bad catalogue: " + err.Error()}
+	}
+	var mine []mutantEntry
+	for _, m := range cat {
+		for _, e := range m.Expect {
+			if e.Property == pd.id {
+				mine = append(mine, m)
+				break
+			}
+		}
+	}
+	sort.Slice(mine, func(i, j int) bool { return mine[i].ID < mine[j].ID })
+	results := make([]mutantResult, len(mine))
+	sem := make(chan struct{}, 8)
+	var wg sync.WaitGroup
+	self, _ := os.Executable()
+	for i, m := range mine {
+		wg.Add(1)
+		go func(i int, m mutantEntry) {
+			defer wg.Done()
+			sem <- struct{}{}
+			defer func() { <-sem }()
+			results[i] = runOneMutant(self, pd.id, repo, m)
+		}(i, m)
+	}
+	wg.Wait()
+	fired, missed, skipped := 0, 0, 0
+	for _, r := range results {
+		switch r.Status {
+		case "fired":
+			fired++
+		case "missed":
+			missed++
+		default:
+			skipped++
+		}
+	}
+	return map[string]any{"catalogue": len(cat), "applicable": len(mine), "fired": fired, "missed": missed, "skipped": skipped, "results": results}
+}
+
+func runOneMutant(self, prop, repo string, m mutantEntry) mutantResult {
+	res := mutantResult{ID: m.ID, Source: m.Source, What: m.What}
+	want := map[string]bool{}
+	for _, e := range m.Expect {
+		if e.Property == prop {
+			want[e.Rule] = true
+			res.Expect = append(res.Expect, e.Rule)
+		}
+	}
+	tmp, err := os.MkdirTemp("", "ivmutant-")
+	if err != nil {
+		res.Status, res.Comment = "skipped", err.Error()
+		return res
+	}
+	defer os.RemoveAll(tmp)
+	dst := filepath.Join(tmp, "repo")
+	// copy the working tree without .git
+	if out, err := exec.Command("rsync", "-a", "--exclude", ".git", repo+"/", dst+"/").CombinedOutput(); err != nil {
+		res.Status, res.Comment = "skipped", "copy failed: "+string(out)
+		return res
+	}
+	patch := filepath.Join(verifDir, m.Patch)
+	if out, err := exec.Command("patch", "-p1", "-s", "-f", "-d", dst, "-i", patch).CombinedOutput(); err != nil {
+		res.Status, res.Comment = "skipped", "patch does not apply to the current tree: "+firstLine(string(out))
+		return res
+	}
+	cmd := exec.Command(self, "-p", prop, "-repo", dst, "-mutant")
+	cmd.Env = os.Environ()
+	out, _ := cmd.CombinedOutput()
+	for _, line := range strings.Split(string(out), "\n") {
+		if strings.HasPrefix(line, "MUTANT-VIOLATED ") {
+			key := strings.TrimPrefix(line, "MUTANT-VIOLATED ")
+			if want[ruleOfKey(key)] {
+				res.Fired = append(res.Fired, key)
+			}
+		}
+		if strings.HasPrefix(line, "MUTANT-FATAL ") {
+			res.Comment = line
+		}
+	}
+	if len(res.Fired) > 0 {
+		res.Status = "fired"
+	} else {
+		res.Status = "missed"
+	}
+	return res
+}
+
+func firstLine(s string) string {
+	if i := strings.Index(s, "\n"); i >= 0 {
+		return s[:i]
+	}
+	return s
+}
+
+// mutantMode analyses one property on the given tree and prints the new violations; no evidence, no controls.
+func mutantMode(pd *propDef, repo string) int {
+	p, err := Load(repo, nil, "", nil)
+	if err != nil {
+		fmt.Println("MUTANT-FATAL load:", err)
+		return 2
+	}
+	all, panics := runEngines(p, rulesOf(pd))
+	for _, pn := range panics {
+		fmt.Println("MUTANT-FATAL", firstLine(pn))
+	}
+	known, _ := loadKnown(verifDir + "/known_findings.json")
+	kn := map[string]bool{}
+	for _, k := range known {
+		if k.Status == "known" {
+			kn[k.Key] = true
+		}
+	}
+	for _, ob := range selectObls(all, pd.sels) {
+		if (ob.Verdict == Violated || ob.Verdict == Undecided) && !kn[ob.Key] {
+			fmt.Println("MUTANT-VIOLATED " + ob.Key)
+		}
+	}
+	return 0
+}
